@@ -5,3 +5,6 @@ From CM Require Export Base.Str.
 Inductive sonar_select := IssuesOrElse | IssuesPlusHotspots.
 (** core_codemods/defectdojo/results.py: only the pinned shape is known. *)
 Inductive dd_shape := DDAsPinned.
+(** codemodder/sarifs.py: detect_sarif_tools wraps each run's detection in its own try/except (only the pinned shape is known). *)
+Inductive sarif_detect_form := PerRunTry.
+Inductive sarif_detector_form := NameContainsSemgrepLower | NameContainsCodeQL.
